@@ -16,7 +16,7 @@ RESP = 'smbus_response::MCTPSMBusContextResponse'
 CTX = "smbus::MCTPSMBusContext::<'_>"
 TRAIT = 'mctp_traits::SMBusMCTPRequestResponse'
 
-ENGINE_VERSION = '28'
+ENGINE_VERSION = '39'
 
 
 def vendor_format_domain(name):
@@ -43,6 +43,9 @@ class Analysis:
         self.prog = Program(self.fact_path)
         self.extract_s = time.time() - t0
         self._mem = {}
+        self._roles = None
+        self._roles_busy = False
+        self.roles_found = {}
         self.interp_stats = {'steps': 0, 'forks': 0, 'instances': set(), 'entries': 0, 'leaves': 0}
         self.entries = self.discover()
 
@@ -94,21 +97,57 @@ class Analysis:
                     ent['from.' + m.group(1).split('::')[-1]] = dict(key=key)
         return ent
 
+    # ------------------------------------------------------------ roles of the private state
+    def rename_tables(self):
+        """Rename tables actual -> canonical field paths (engine/roles.py), discovered once per analysis."""
+        if self._roles is None:
+            import roles
+            self._roles_busy = True
+            try:
+                tabs, found = roles.tables(self)
+            except Exception:
+                tabs, found = {'ctx': [], 'Req': [], 'Resp': []}, {}
+            finally:
+                self._roles_busy = False
+            self._roles, self.roles_found = tabs, found
+        return self._roles
+
+    @staticmethod
+    def kind_of(name_or_key):
+        n = name_or_key
+        if n.startswith(('req.', 'req-state.', 'trait.Req.', 'gen.Req.')) or n.startswith((REQ + '::', '<' + REQ + ' as ')):
+            return 'Req'
+        if n.startswith(('resp.', 'resp-state.', 'trait.Resp.', 'gen.Resp.')) or n.startswith((RESP + '::', '<' + RESP + ' as ')):
+            return 'Resp'
+        if n.startswith('ctx.') or n == 'process_packet' or n.startswith(CTX + '::'):
+            return 'ctx'
+        return None
+
+    def rename_for(self, name_or_key):
+        if self._roles_busy:
+            return []
+        k = self.kind_of(name_or_key)
+        return list(self.rename_tables().get(k, [])) if k else []
+
     # ------------------------------------------------------------ leaves
     def leaves(self, name):
-        """-> (leaves, n_assumed). Cached per (tree, profile, engine version, entry)."""
-        if name in self._mem:
-            return self._mem[name]
-        spec = self.entries[name]
-        fn = os.path.join(CACHE, 'leaves-%s-%s-v%s-%s.pkl' % (self.tree, self.profile, ENGINE_VERSION,
-                                                            re.sub(r'[^\w.]', '_', name)))
+        """-> (leaves, n_assumed). Cached per (tree, profile, engine version, entry, rename table)."""
+        ren = self.rename_for(name)
+        mk = (name, repr(ren))
+        if mk in self._mem:
+            return self._mem[mk]
+        spec = dict(self.entries[name], rename=ren)
+        import hashlib
+        rtag = ('-r' + hashlib.sha1(repr(ren).encode()).hexdigest()[:8]) if ren else ''
+        fn = os.path.join(CACHE, 'leaves-%s-%s-v%s-%s%s.pkl' % (self.tree, self.profile, ENGINE_VERSION,
+                                                              re.sub(r'[^\w.]', '_', name), rtag))
         if os.path.exists(fn) and not os.environ.get('MCTPSA_NOCACHE'):
             try:
                 with open(fn, 'rb') as f:
                     r = pickle.load(f)
                 import terms
                 terms.OPS.update(r.get('ops', {}))
-                self._mem[name] = r['val']
+                self._mem[mk] = r['val']
                 self._acc(r['stats'])
                 return r['val']
             except Exception:
@@ -122,7 +161,7 @@ class Analysis:
             os.replace(tmp, fn)
         except Exception:
             pass
-        self._mem[name] = val
+        self._mem[mk] = val
         self._acc(stats)
         return val
 
@@ -142,6 +181,7 @@ class Analysis:
         if self.interp_stats['steps'] > self.GLOBAL_STEP_BUDGET:
             it.total_steps = 20000      # the run as a whole is over budget: remaining entries fail closed quickly
         it.domain_hook = spec.get('hook')
+        it.rename = spec.get('rename') if spec.get('rename') is not None else self.rename_for(spec['key'])
         ma = make_args or default_args(opts=spec.get('opts'), overrides=spec.get('overrides'))
         try:
             leaves, na = it.run(spec['key'], ma, spec.get('assume'), label=spec.get('label'))
@@ -190,6 +230,7 @@ class Analysis:
         """Uncached interpretation with custom arguments (summary composition)."""
         it = Interp(self.prog, max_leaves=400, total_steps=150000 if self.interp_stats['steps'] < self.GLOBAL_STEP_BUDGET else 10000)
         it.domain_hook = hook
+        it.rename = self.rename_for(key)
         leaves, na = it.run(key, make_args, assume, label=label)
         stats = dict(it.stats)
         stats['leaves'] = len(leaves)
